@@ -53,6 +53,12 @@ MUTANTS = {
     "c12_missing_end": ("rp2.ods_parser", "    if current_table_type is not None:\n        raise RP2ValueError(f\"TABLE END not found", "    if False:\n        raise RP2ValueError(f\"TABLE END not found", ["C12"]),
     "c12_d10_regression": ("rp2.ods_parser", "if current_table_type in seen_table_types:", "if current_table_type and not unfiltered_transaction_sets[current_table_type].is_empty():", ["C12"]),
     "c12_recv_gt_sent": ("rp2.intra_transaction", "        if self.__crypto_sent < self.__crypto_received:", "        if False:", ["C12"]),
+    "c04_cost_no_fee": ("rp2.gain_loss", "        return (self.acquired_lot.fiat_in_with_fee * self.crypto_amount) / self.acquired_lot.crypto_balance_change\n\n    @property\n    def fiat_gain", "        return (self.acquired_lot.fiat_in_no_fee * self.crypto_amount) / self.acquired_lot.crypto_balance_change\n\n    @property\n    def fiat_gain", ["C04"]),
+    "c04_prec15": ("rp2.rp2_decimal", "getcontext().prec = CRYPTO_DECIMALS + 18", "getcontext().prec = CRYPTO_DECIMALS + 2", ["C04"]),
+    "c04_quantize_cost": ("rp2.gain_loss", "        return self.taxable_event_fiat_amount_with_fee_fraction - self.fiat_cost_basis", "        return self.taxable_event_fiat_amount_with_fee_fraction - self.fiat_cost_basis.quantize(__import__('rp2.rp2_decimal').rp2_decimal.FIAT_DECIMAL_MASK)", ["C04"]),
+    "c04_no_float_trap": ("rp2.rp2_decimal", "getcontext().traps[FloatOperation] = True", "getcontext().traps[FloatOperation] = False", ["C04"]),
+    "c04_out_fee_in_proceeds": ("rp2.out_transaction", "        return self.fiat_out_no_fee\n\n    @property\n    def crypto_deduction", "        return self.fiat_out_with_fee\n\n    @property\n    def crypto_deduction", ["C04"]),
+    "c04_supplied_ignored": ("rp2.in_transaction", "        if fiat_in_with_fee is None:\n            self.__fiat_in_with_fee = self.__fiat_in_no_fee + self.__fiat_fee", "        if fiat_in_with_fee is None or True:\n            self.__fiat_in_with_fee = self.__fiat_in_no_fee + self.__fiat_fee", ["C04"]),
 }
 
 
